@@ -283,7 +283,9 @@ def _custom_gate_instance_from_dict(dict_, custom_gate_defs) -> _gates.Gate:
             f"Custom gate definition for {dict_['name']} missing from serialized dict"
         )
 
-    symbol_names = map(serialize_expr, gate_def.params_ordering)
+    # The parameters of an instance are expressions over the instance's own free
+    # symbols (saved with it), not over the symbols of the definition.
+    symbol_names = dict_.get("free_symbols", [])
     return gate_def(
         *[deserialize_expr(param, symbol_names) for param in dict_.get("params", [])]
     )
